@@ -617,11 +617,19 @@ class SimNet:
     def _app(self, op):
         side = op["side"]
         ep = self.ep(side)
-        if ep is None or (side == "server" and not ep.handshake_complete):
-            # a server application can only act once it has a connection
+        early = bool(op.get("early")) and ep is not None
+        if ep is None or (side == "server" and not ep.handshake_complete and not early):
+            # a server application can only act once it has a connection (ops marked "early" may act
+            # before the handshake completes: 0.5-RTT data in answer to 0-RTT data)
             if op.get("_defer", 0) < 400:
                 op = dict(op, _defer=op.get("_defer", 0) + 1)
                 self._push(self.now + 0.05, "app", op)
+            return
+        if early and op["op"] == "write" and op.get("wait_stream") and op["sid"] not in ep.known_streams and not ep.terminated:
+            # answer to a stream of the peer that has not shown up yet: look again shortly
+            if op.get("_defer", 0) < 2000:
+                op = dict(op, _defer=op.get("_defer", 0) + 1)
+                self._push(self.now + 0.005, "app", op)
             return
         if ep.terminated:
             return
